@@ -150,11 +150,15 @@ structure LEvent where
   delta : Nat
   deriving DecidableEq, Repr, Inhabited
 
+def stripF0 : List Nat → List Nat
+  | 0xf0 :: t => t
+  | d => d
+
 /-- `read_sysex` -/
 def readSysex (clip : Bool) (bs : List Nat) : Except Err (FEv × List Nat) := do
   let (len, r1) ← readVlq bs
   let (data, r2) ← readBytes len r1
-  let d1 := match data with | 0xf0 :: t => t | d => d
+  let d1 := stripF0 data
   let d2 := if d1.getLast? = some 0xf7 then d1.dropLast else d1
   let d3 := if clip then d2.map clipByte else d2
   if d3.all (· ≤ 127) then pure (.msg (.sysex d3), r2) else throw .ValueError
